@@ -126,6 +126,23 @@ public:
     void addIssueNotFound(const std::string &id);
     void addIssueNonUnique(const std::string &id);
     void addIssueNotInModel(CellmlElementType type);
+    void addIssueNotOfKind(const std::string &id, CellmlElementType type, const std::string &kind);
+
+    /**
+     * @brief Return @p object, logging an issue if an item was found but it is not of the requested kind.
+     *
+     * The typed look up methods promise an issue whenever they return a @c nullptr.  When the
+     * identifier belongs to an item of another kind the item is found (so nothing has been logged)
+     * but its typed accessor returns a @c nullptr: explain that.
+     */
+    template<typename T>
+    T checkedKind(const std::string &id, const AnyCellmlElementPtr &item, const T &object, const std::string &kind)
+    {
+        if ((object == nullptr) && (item->type() != CellmlElementType::UNDEFINED)) {
+            addIssueNotOfKind(id, item->type(), kind);
+        }
+        return object;
+    }
 };
 
 Annotator::AnnotatorImpl *Annotator::pFunc()
@@ -555,6 +572,15 @@ void Annotator::AnnotatorImpl::addIssueNotInModel(CellmlElementType type)
     addIssue(issue);
 }
 
+void Annotator::AnnotatorImpl::addIssueNotOfKind(const std::string &id, CellmlElementType type, const std::string &kind)
+{
+    auto issue = Issue::IssueImpl::create();
+    issue->mPimpl->setDescription("Could not find " + kind + " with an identifier of '" + id + "' in the model: the identifier belongs to an item of type '" + cellmlElementTypeAsString(type) + "'.");
+    issue->mPimpl->setLevel(Issue::Level::WARNING);
+    issue->mPimpl->setReferenceRule(Issue::ReferenceRule::ANNOTATOR_ID_NOT_FOUND);
+    addIssue(issue);
+}
+
 bool Annotator::AnnotatorImpl::exists(const std::string &id, size_t index, bool unique)
 {
     if (!mAnnotator->hasModel()) {
@@ -633,132 +659,158 @@ std::vector<std::string> Annotator::ids()
 
 ComponentPtr Annotator::component(const std::string &id, size_t index)
 {
-    return item(id, index)->component();
+    auto foundItem = item(id, index);
+    return pFunc()->checkedKind(id, foundItem, foundItem->component(), "a component");
 }
 
 ComponentPtr Annotator::component(const std::string &id)
 {
-    return item(id)->component();
+    auto foundItem = item(id);
+    return pFunc()->checkedKind(id, foundItem, foundItem->component(), "a component");
 }
 
 ComponentPtr Annotator::componentEncapsulation(const std::string &id, size_t index)
 {
-    return item(id, index)->component();
+    auto foundItem = item(id, index);
+    return pFunc()->checkedKind(id, foundItem, foundItem->component(), "a component");
 }
 
 ComponentPtr Annotator::componentEncapsulation(const std::string &id)
 {
-    return item(id)->component();
+    auto foundItem = item(id);
+    return pFunc()->checkedKind(id, foundItem, foundItem->component(), "a component");
 }
 
 VariablePairPtr Annotator::connection(const std::string &id, size_t index)
 {
-    return item(id, index)->variablePair();
+    auto foundItem = item(id, index);
+    return pFunc()->checkedKind(id, foundItem, foundItem->variablePair(), "a connection");
 }
 
 VariablePairPtr Annotator::connection(const std::string &id)
 {
-    return item(id)->variablePair();
+    auto foundItem = item(id);
+    return pFunc()->checkedKind(id, foundItem, foundItem->variablePair(), "a connection");
 }
 
 ModelPtr Annotator::encapsulation(const std::string &id, size_t index)
 {
-    return item(id, index)->model();
+    auto foundItem = item(id, index);
+    return pFunc()->checkedKind(id, foundItem, foundItem->model(), "an encapsulation");
 }
 
 ModelPtr Annotator::encapsulation(const std::string &id)
 {
-    return item(id)->model();
+    auto foundItem = item(id);
+    return pFunc()->checkedKind(id, foundItem, foundItem->model(), "an encapsulation");
 }
 
 ImportSourcePtr Annotator::importSource(const std::string &id, size_t index)
 {
-    return item(id, index)->importSource();
+    auto foundItem = item(id, index);
+    return pFunc()->checkedKind(id, foundItem, foundItem->importSource(), "an import");
 }
 
 ImportSourcePtr Annotator::importSource(const std::string &id)
 {
-    return item(id)->importSource();
+    auto foundItem = item(id);
+    return pFunc()->checkedKind(id, foundItem, foundItem->importSource(), "an import");
 }
 
 VariablePairPtr Annotator::mapVariables(const std::string &id, size_t index)
 {
-    return item(id, index)->variablePair();
+    auto foundItem = item(id, index);
+    return pFunc()->checkedKind(id, foundItem, foundItem->variablePair(), "a variable mapping");
 }
 
 VariablePairPtr Annotator::mapVariables(const std::string &id)
 {
-    return item(id)->variablePair();
+    auto foundItem = item(id);
+    return pFunc()->checkedKind(id, foundItem, foundItem->variablePair(), "a variable mapping");
 }
 
 ModelPtr Annotator::model(const std::string &id, size_t index)
 {
-    return item(id, index)->model();
+    auto foundItem = item(id, index);
+    return pFunc()->checkedKind(id, foundItem, foundItem->model(), "a model");
 }
 
 ModelPtr Annotator::model(const std::string &id)
 {
-    return item(id)->model();
+    auto foundItem = item(id);
+    return pFunc()->checkedKind(id, foundItem, foundItem->model(), "a model");
 }
 
 ResetPtr Annotator::reset(const std::string &id, size_t index)
 {
-    return item(id, index)->reset();
+    auto foundItem = item(id, index);
+    return pFunc()->checkedKind(id, foundItem, foundItem->reset(), "a reset");
 }
 
 ResetPtr Annotator::reset(const std::string &id)
 {
-    return item(id)->reset();
+    auto foundItem = item(id);
+    return pFunc()->checkedKind(id, foundItem, foundItem->reset(), "a reset");
 }
 
 ResetPtr Annotator::resetValue(const std::string &id, size_t index)
 {
-    return item(id, index)->reset();
+    auto foundItem = item(id, index);
+    return pFunc()->checkedKind(id, foundItem, foundItem->reset(), "a reset value");
 }
 
 ResetPtr Annotator::resetValue(const std::string &id)
 {
-    return item(id)->reset();
+    auto foundItem = item(id);
+    return pFunc()->checkedKind(id, foundItem, foundItem->reset(), "a reset value");
 }
 
 ResetPtr Annotator::testValue(const std::string &id, size_t index)
 {
-    return item(id, index)->reset();
+    auto foundItem = item(id, index);
+    return pFunc()->checkedKind(id, foundItem, foundItem->reset(), "a test value");
 }
 
 ResetPtr Annotator::testValue(const std::string &id)
 {
-    return item(id)->reset();
+    auto foundItem = item(id);
+    return pFunc()->checkedKind(id, foundItem, foundItem->reset(), "a test value");
 }
 
 UnitsPtr Annotator::units(const std::string &id, size_t index)
 {
-    return item(id, index)->units();
+    auto foundItem = item(id, index);
+    return pFunc()->checkedKind(id, foundItem, foundItem->units(), "a units");
 }
 
 UnitsPtr Annotator::units(const std::string &id)
 {
-    return item(id)->units();
+    auto foundItem = item(id);
+    return pFunc()->checkedKind(id, foundItem, foundItem->units(), "a units");
 }
 
 UnitsItemPtr Annotator::unitsItem(const std::string &id, size_t index)
 {
-    return item(id, index)->unitsItem();
+    auto foundItem = item(id, index);
+    return pFunc()->checkedKind(id, foundItem, foundItem->unitsItem(), "a unit");
 }
 
 UnitsItemPtr Annotator::unitsItem(const std::string &id)
 {
-    return item(id)->unitsItem();
+    auto foundItem = item(id);
+    return pFunc()->checkedKind(id, foundItem, foundItem->unitsItem(), "a unit");
 }
 
 VariablePtr Annotator::variable(const std::string &id, size_t index)
 {
-    return item(id, index)->variable();
+    auto foundItem = item(id, index);
+    return pFunc()->checkedKind(id, foundItem, foundItem->variable(), "a variable");
 }
 
 VariablePtr Annotator::variable(const std::string &id)
 {
-    return item(id)->variable();
+    auto foundItem = item(id);
+    return pFunc()->checkedKind(id, foundItem, foundItem->variable(), "a variable");
 }
 
 void Annotator::clearAllIds()
